@@ -52,15 +52,31 @@ def in_domain(*texts) -> bool:
     return all(all(c == "\n" or 32 <= ord(c) < 127 for c in t) for t in texts)
 
 
+NEWLINE_RE = re.compile(r"\r\n|\r|\n")
+
+
+def physical_lines(source):
+    """(start, end, text incl. terminator) of the physical lines as Python's tokenizer delimits them
+    (\\n, \\r\\n, \\r -- NOT form feed, U+2028 ... which str.splitlines also splits at)."""
+    out, pos = [], 0
+    for m in NEWLINE_RE.finditer(source):
+        out.append((pos, m.end(), source[pos:m.end()]))
+        pos = m.end()
+    if pos < len(source):
+        out.append((pos, len(source), source[pos:]))
+    return out
+
+
 def node_span(nodes, source):
-    """Character range of a run of nodes from their own (lineno, col_offset) -- ASCII sources only,
+    """Character range of a run of nodes from their own (lineno, col_offset in UTF-8 bytes) --
     independent of core.get_charnos and of find_replace's arithmetic."""
-    starts, pos = [], 0
-    for ln in source.split("\n"):
-        starts.append(pos)
-        pos += len(ln) + 1
-    a = min(starts[n.lineno - 1] + n.col_offset for n in nodes)
-    b = max(starts[n.end_lineno - 1] + n.end_col_offset for n in nodes)
+    lines = physical_lines(source) or [(0, 0, "")]
+
+    def pos(lineno, col):
+        a, _, text = lines[min(lineno, len(lines)) - 1]
+        return a + len(text.encode("utf-8")[:col].decode("utf-8", errors="ignore"))
+    a = min(pos(n.lineno, n.col_offset) for n in nodes)
+    b = max(pos(n.end_lineno, n.end_col_offset) for n in nodes)
     return (a, b)
 
 
@@ -71,10 +87,10 @@ def all_matches(mods, pattern, source):
     res = []
     with common.quiet():
         for rng, _, groups in processing.find_replace(source, pattern, "", yield_match=True):
-            d = groups._asdict() if hasattr(groups, "_asdict") else {}
+            d = groups_dict(groups)
             root = d.get("root")
             roots = list(root) if isinstance(root, (list, tuple)) else [root]
-            if roots and all(isinstance(r, ast.AST) and hasattr(r, "lineno") for r in roots) and source.isascii():
+            if roots and all(isinstance(r, ast.AST) and hasattr(r, "lineno") for r in roots):
                 span = node_span(roots, source)
             else:
                 span = (rng.start, rng.end)
@@ -151,6 +167,25 @@ def run_subn(mods, pattern, repl, source, count):
 
 
 def ignore_line_ranges(source):
+    """Physical lines that carry an ignore COMMENT (a comment token, not text inside a string)."""
+    lines = physical_lines(source)
+    res = set()
+    try:
+        toks = list(tokenize.generate_tokens(io.StringIO(NEWLINE_RE.sub("\n", source)).readline))
+    except (tokenize.TokenError, SyntaxError, IndentationError):
+        toks = None
+    if toks is None:
+        return [(a, b) for (a, b, t) in lines if IGNORE_RE.search(t)]
+    for t in toks:
+        if t.type == tokenize.COMMENT and IGNORE_RE.search(t.string) and t.start[0] - 1 < len(lines):
+            a, b, _ = lines[t.start[0] - 1]
+            res.add((a, b))
+    return sorted(res)
+
+
+def regex_ignore_line_ranges(source):
+    """What core.has_ignore_comment looks at ("\\n"-separated text, regex on the raw line): used for the
+    correspondence with the model, which mirrors the implementation."""
     res, pos = [], 0
     for line in source.split("\n"):
         end = min(len(source), pos + len(line) + 1)
@@ -189,7 +224,7 @@ class _Fill(ast.NodeTransformer):
     def visit_Name(self, node):
         m = re.fullmatch(HOLE % r"(\w+)", node.id)
         if m:
-            v = self.binds[m.group(1)]
+            v = self.binds.get(m.group(1))
             if isinstance(v, ast.Expr):
                 v = v.value
             if not isinstance(v, ast.expr):
@@ -201,42 +236,68 @@ class _Fill(ast.NodeTransformer):
         # a wildcard that is a whole statement may be bound to a statement
         if isinstance(node.value, ast.Name):
             m = re.fullmatch(HOLE % r"(\w+)", node.value.id)
-            if m and isinstance(self.binds[m.group(1)], ast.stmt):
+            if m and isinstance(self.binds.get(m.group(1)), ast.stmt):
                 return copy.deepcopy(self.binds[m.group(1)])
         return self.generic_visit(node)
 
 
-def _key(node):
-    return (type(node).__name__, node.lineno, node.col_offset, node.end_lineno, node.end_col_offset)
+class OutsideProperty(Exception):
+    """The tree-level substitution is not a program (or the template is not parseable on its own):
+    the property says nothing about this input."""
+
+
+def groups_dict(groups):
+    """Bindings of a match: namedtuple for patterns with wildcards, a plain 1-tuple (root,) without."""
+    if hasattr(groups, "_asdict"):
+        return groups._asdict()
+    return {"root": groups[0]} if isinstance(groups, tuple) and groups else {}
+
+
+def resolve_targets(tree, source, rng, root):
+    """The node(s) of OUR parse of the source that a match covers: for a single node the node of the
+    same type with exactly that span, for a statement sequence the consecutive statements of one block
+    that span the range."""
+    if isinstance(root, ast.AST) and hasattr(root, "lineno"):
+        for node in ast.walk(tree):
+            if type(node) is type(root) and hasattr(node, "lineno") and node_span([node], source) == tuple(rng):
+                return [node]
+        raise LookupError(f"no {type(root).__name__} node with span {rng}")
+    for node in ast.walk(tree):
+        for field in ("body", "orelse", "finalbody"):
+            block = getattr(node, field, None)
+            if not isinstance(block, list) or not block or not isinstance(block[0], ast.stmt):
+                continue
+            spans = [node_span([st], source) for st in block]
+            for i in range(len(block)):
+                if spans[i][0] == rng[0]:
+                    for j in range(i, len(block)):
+                        if spans[j][1] == rng[1]:
+                            return block[i:j + 1]
+    raise LookupError(f"no statement run with span {rng}")
 
 
 def reference_tree(source, repl, applied):
     """ast of the source with the matched nodes of every applied match replaced by the replacement
     template instantiated (at tree level) with that match's bindings.
-    applied: list of groups (namedtuples with .root and wildcard fields) of the applied matches."""
+    applied: list of (range, bindings as text, groups) of the applied matches."""
     tree = ast.parse(source)
-    index = {}
-    for node in ast.walk(tree):
-        if hasattr(node, "lineno"):
-            index.setdefault(_key(node), node)
-    plan = {}      # id(node) -> replacement (expr | list of stmts | "delete")
-    for groups in applied:
-        d = groups._asdict()
-        roots = d.get("root")
-        binds = {k: v for k, v in d.items() if k != "root"}
-        binds["root"] = roots
-        roots = roots if isinstance(roots, (list, tuple)) else [roots]
-        mine = [index[_key(r)] for r in roots]
-        if isinstance(mine[0], ast.expr):
-            new = _Fill(binds).visit(_template_tree(repl, "expr"))
-            plan[id(mine[0])] = new
-        else:
-            body = _template_tree(repl, "stmt") if repl.strip() else []
-            new = [_Fill(binds).visit(s) for s in body]
-            new = [x for s in new for x in (s if isinstance(s, list) else [s])]
-            plan[id(mine[0])] = new
-            for other in mine[1:]:
-                plan[id(other)] = []
+    plan = {}      # id(node) -> replacement (expr | list of stmts)
+    for (rng, _, groups) in applied:
+        d = groups_dict(groups)
+        binds = dict(d)
+        mine = resolve_targets(tree, source, rng, d.get("root"))
+        try:
+            if isinstance(mine[0], ast.expr):
+                new = _Fill(binds).visit(_template_tree(repl, "expr"))
+            else:
+                body = _template_tree(repl, "stmt") if repl.strip() else []
+                new = [_Fill(binds).visit(st) for st in body]
+                new = [x for st in new for x in (st if isinstance(st, list) else [st])]
+        except (SyntaxError, ValueError) as e:
+            raise OutsideProperty(str(e))
+        plan[id(mine[0])] = new
+        for other in mine[1:]:
+            plan[id(other)] = []
 
     class Apply(ast.NodeTransformer):
         def generic_visit(self, node):
@@ -259,7 +320,7 @@ def reference_tree(source, repl, applied):
                     if id(old) in plan:
                         r = plan[id(old)]
                         if isinstance(r, list):
-                            raise ValueError("statement list in a single-node position")
+                            raise OutsideProperty("statement list in a single-node position")
                         setattr(node, field, r)
                     else:
                         self.generic_visit(old)
@@ -298,10 +359,7 @@ def untouched_preserved(source, out, ranges):
     as a prefix of the output, those after the last touched line as its suffix."""
     if not ranges:
         return out == source
-    lines, pos = [], 0
-    for ln in source.splitlines(keepends=True):
-        lines.append((pos, pos + len(ln), ln))
-        pos += len(ln)
+    lines = physical_lines(source)
     touched = [any(overlaps((a, b), r) or (r[0] == r[1] and a <= r[0] < b) for r in ranges)
                for (a, b, _) in lines]
     if not any(touched):
@@ -359,13 +417,13 @@ def property_oracle(mods, pattern, repl, source, count, rec=None) -> list[dict]:
     if count > 0 and n > count:
         probs.append({"clause": "count", "detail": f"subn reports {n} replacements for count={count}"})
     for (a, b) in ilines:
-        if source[a:b].rstrip("\n") not in out:
+        if source[a:b].rstrip("\r\n") not in out:
             probs.append({"clause": "ignore", "detail": f"ignored line {source[a:b]!r} not in the output"})
     try:
-        ref = reference_tree(source, repl, [g for (_, _, g) in want])
+        ref = reference_tree(source, repl, want)
         ref_dump = dump_norm(ref)
         compile(ast.parse(ast.unparse(ref)), "<ref>", "exec")
-    except (ValueError, SyntaxError, KeyError, TypeError, AttributeError):
+    except (OutsideProperty, SyntaxError, ValueError):
         ref_dump = None   # the tree-level substitution is not a program: outside the property
     if ref_dump is not None:
         try:
@@ -413,7 +471,7 @@ def _parenthesised_variants(mods, case):
     text_p = text_a = text_b = source
     for r in got:
         binds, groups = ms[r]
-        root = groups._asdict().get("root")
+        root = groups_dict(groups).get("root")
         # same placement as find_replace: continuation lines follow the line the match starts on
         line = source[source.rfind("\n", 0, r[0]) + 1:r[1]].split("\n", 1)[0]
         ind = len(line) - len(line.lstrip(" ")) if line.strip() else 0
@@ -439,8 +497,8 @@ def _parenthesised_variants(mods, case):
     elif d(out) != d(text_p):
         return None
     try:
-        ref = dump_norm(reference_tree(source, repl, [ms[r][1] for r in got]))
-    except (SyntaxError, ValueError, KeyError):
+        ref = dump_norm(reference_tree(source, repl, [(r, ms[r][0], ms[r][1]) for r in got]))
+    except (OutsideProperty, SyntaxError, ValueError, LookupError):
         return None
     return ref, d(text_a), d(text_b)
 
@@ -461,15 +519,114 @@ def sig_replacement_precedence_lost(mods, case) -> bool:
     return bool(v) and v[1] != v[0] and v[2] == v[0]
 
 
+SPLITLINES_EXTRA = re.compile("[\x0b\x0c\x1c\x1d\x1e\x85\u2028\u2029]|\r(?!\n)")
+
+
+def _expected(mods, case):
+    return expected_applied(all_matches(mods, case["pattern"], case["source"]), case["source"], case["count"])
+
+
+def sig_line_separator_in_source(mods, case) -> bool:
+    """The source has a character at which str.splitlines splits but which is no line end for python
+    (form feed, U+2028, \x1c-\x1e, \x85, \v) or a lone carriage return: every line-based step
+    (has_ignore_comment, indentation of the matched line, rstrip per line) sees other lines."""
+    return bool(SPLITLINES_EXTRA.search(case["source"]))
+
+
+def sig_ignore_text_in_string(mods, case) -> bool:
+    """The ignore regex matches text of the source that is not a comment (inside a string literal) on a
+    line that an expected match touches."""
+    src = case["source"]
+    real = set(ignore_line_ranges(src))
+    for (a, b, t) in physical_lines(src):
+        if IGNORE_RE.search(t) and (a, b) not in real:
+            return True
+    # a string token spanning several lines whose content matches
+    return any(IGNORE_RE.search(src[a:b]) for (a, b) in regex_ignore_line_ranges(src) if (a, b) not in real)
+
+
+def sig_string_line_trailing_blank(mods, case) -> bool:
+    """A string literal of the source spans several lines and one of its inner lines ends in blanks
+    (they are stripped when the original spelling of the literal is put back)."""
+    try:
+        toks = list(tokenize.generate_tokens(io.StringIO(case["source"]).readline))
+    except (tokenize.TokenError, SyntaxError, IndentationError):
+        return False
+    for t in toks:
+        if t.type == tokenize.STRING and t.start[0] != t.end[0]:
+            if any(l != l.rstrip(" \t") for l in t.string.split("\n")[:-1]):
+                return True
+    return False
+
+
+def sig_fstring_debug_specifier(mods, case) -> bool:
+    """An expected match is the expression of a self-documenting f-string field, f'{x=}'."""
+    src = case["source"]
+    for (rng, _, _) in _expected(mods, case):
+        if re.match(r"\s*=\s*[}!:]", src[rng[1]:]) and src[:rng[0]].rstrip().endswith("{"):
+            return True
+    return False
+
+
+def sig_elif_clause_matched(mods, case) -> bool:
+    """An expected match is the nested If of an `elif` clause: its range starts at the keyword elif."""
+    src = case["source"]
+    return any(src[rng[0]:rng[0] + 4] == "elif" for (rng, _, _) in _expected(mods, case))
+
+
+def sig_statement_shares_line(mods, case) -> bool:
+    """An expected STATEMENT match shares its physical line with other code: a block header in front of
+    it (one-line body) or `;`-separated neighbours."""
+    src = case["source"]
+    lines = physical_lines(src)
+    for (rng, _, groups) in _expected(mods, case):
+        root = groups_dict(groups).get("root")
+        if isinstance(root, ast.expr):
+            continue
+        first = next(l for l in lines if l[0] <= rng[0] < l[1] or (rng[0] == l[1] == len(src)))
+        last = next(l for l in lines if l[0] < rng[1] <= l[1])
+        before = src[first[0]:rng[0]]
+        after = src[rng[1]:last[1]].strip()
+        if before.strip() or (after and not after.startswith("#")):
+            return True
+    return False
+
+
+def sig_comment_ends_replacement(mods, case) -> bool:
+    """The replacement template ends in a comment and the source line goes on after an expected match."""
+    src, repl = case["source"], case["repl"]
+    last = repl.split("\n")[-1]
+    try:
+        has_comment = any(t.type == tokenize.COMMENT for t in tokenize.generate_tokens(io.StringIO(last).readline))
+    except (tokenize.TokenError, SyntaxError, IndentationError):
+        has_comment = "#" in last
+    if not has_comment:
+        return False
+    lines = physical_lines(src)
+    for (rng, _, _) in _expected(mods, case):
+        last_line = next(l for l in lines if l[0] < rng[1] <= l[1])
+        if src[rng[1]:last_line[1]].strip():
+            return True
+    return False
+
+
 SIGS = {"binding_precedence_lost": sig_binding_precedence_lost,
-        "replacement_precedence_lost": sig_replacement_precedence_lost}
-SITES = {SITE_FORMAT, "processing.find_replace"}
+        "replacement_precedence_lost": sig_replacement_precedence_lost,
+        "line_separator_in_source": sig_line_separator_in_source,
+        "ignore_text_in_string": sig_ignore_text_in_string,
+        "string_line_trailing_blank": sig_string_line_trailing_blank,
+        "fstring_debug_specifier": sig_fstring_debug_specifier,
+        "elif_clause_matched": sig_elif_clause_matched,
+        "statement_shares_line": sig_statement_shares_line,
+        "comment_ends_replacement": sig_comment_ends_replacement}
+SITES = {SITE_FORMAT, "processing.find_replace", "core.has_ignore_comment", "processing._do_rewrite"}
+EXPLAINABLE = {"tree", "self-substitution", "ignore", "untouched-lines"}
 
 
 def match_finding(mods, findings, case, probs):
-    """A failing case is suppressed only by a listed finding whose site and predicate both hold; only
-    the tree / self-substitution clauses can be explained by a textual-instantiation finding."""
-    if any(p["clause"] not in ("tree", "self-substitution") for p in probs):
+    """A failing case is suppressed only by a listed finding whose site and predicate both hold; a crash,
+    a wrong count, a changed text where there is no match are never explained."""
+    if any(p["clause"] not in EXPLAINABLE for p in probs):
         return None
     for f in findings:
         if f.kind != "finding" or f.fields.get("site") not in SITES:
@@ -716,6 +873,91 @@ def restructure_family():
                     yield (pat, repl, src, count)
 
 
+# ------------------------------------------------------------------------------------------------
+# round 4 families (bug-hunt reports): string-literal shapes, sole-argument generators, elif clauses,
+# one-line bodies and `;` neighbours, tab / CR / CRLF / other line separators, templates with comments,
+# multi-line strings and compound statements.  Oracle sweep on all of them; correspondence where the
+# text is inside the model's domain.
+
+STRING_SOURCES = [
+    "f(r'\\n')\n",                       # raw string
+    "v = f(R'\\d+', 1)\nw = '\\\\d+'\n",
+    "f(b'ab', rb'\\d')\n",
+    "x = f('a\\tb', \"it's\")\n",          # escapes
+    "x = f('\\x41\\u00e9')\n",
+    "a = '\\\\n'\nb = x\n",
+    "x = \'\'\'a \nb\'\'\'\n",                  # multi-line string, trailing blank inside
+    "x = \'\'\'a\nb\'\'\'\ny = 1\n",
+    "if c:\n    x = \"\"\"a\n  b\n\"\"\"\n",
+    's = f"abc{x}"\n',                     # f-strings
+    "s = f'abc{x}' + 'abc'\n",
+    "t = f'{x=}' + f'{x!r:>10}'\n",
+    "u = f(f'{x}{f(1)}', f\"{f'{x}'}\")\n",
+    "w = f'id {x}'\nv = g(\"id\")\n",
+    "w = f'id{x}'\nv = f(\"id\")\n",
+]
+GENEXP_SOURCES = [
+    "z = f(i for i in x)\n",
+    "n = sum(len(v) for v in w)\n",
+    "n = sum((len(v) for v in w), 0) + max(v for v in w)\n",
+    "if any(f(i) for i in x):\n    z = list(i for i in x)\n",
+    "z = f((i for i in x))\nq = [i for i in x]\n",
+]
+BLOCK_SOURCES = [
+    "if a:\n    p()\nelif b:\n    q()\n",
+    "if a:\n    p()\nelif b:\n    q()\nelif c:\n    x = 1\nelse:\n    r()\n",
+    "if c: x = 1\n",
+    "if c: x = 1\nelse: x = 1\n",
+    "for i in j: x = 1\n",
+    "class A: x = 1\n",
+    "if a: w = 0; x = 1\n",
+    "if c:\n    x = 1; a = 0\n",
+    "x = 1; w = 3\n",
+    "y = f() + 1\n",
+    "if a:\n    p()\nif b:\n    for i in j:\n        q()\n",
+    "def k():\n    if b:\n        while c:\n            q()\n            x = 1\n    return f()\n",
+    "try:\n    x = 1\n    y = 2\nfinally:\n    x = 1\n    y = 2\n",
+]
+LAYOUT_SOURCES = [
+    "if a:\n\tx = 1\n",                                   # tab indentation
+    "def k():\n\tif a:\n\t\tx = 1\n\treturn f()\n",
+    "if c:\r    x = 1\r",                                 # CR only
+    "if c:\r\n    x = 1\r\ny = f()\r\n",                  # CRLF
+    "x = 1 \x0c # pyrefact: ignore\n",                    # form feed before the comment
+    "x = 1; s = '\u2028'  # pyrefact: ignore\n",
+    "s = \'\'\'\n# pyrefact: ignore\'\'\'; f()\n",           # comment-like text inside a string
+    "x = f('a\u2028b')\n",
+    "x = f('a\x0cb')  # c\ny = 2\n",
+]
+HUNT_RULES = [
+    # (pattern, replacements)
+    ("f({{a}})", ["g({{a}})", "f({{a}})", "g({{a}}, {{a}})"]),
+    ("f({{a}}, {{b}})", ["g({{b}}, {{a}})"]),
+    ("x = {{a}}", ["y = {{a}}", "x = {{a}}"]),
+    ("x", ["y", "r'\\n'"]),
+    ("'abc'", ["'xyz'"]),
+    ("\"id\"", ["'id'", "h('id')"]),
+    ("({{a}} for {{b}} in {{c}})", ["y", "g({{a}}, {{c}})", "[{{a}} for {{b}} in {{c}}]", "({{a}} for {{b}} in {{c}})",
+                                     "({{a}} for {{b}} in h({{c}}))"]),
+    ("sum({{g}})", ["sum(list({{g}}))"]),
+    ("if {{c}}:\n    {{b}}", ["if not {{c}}:\n    {{b}}", "while {{c}}:\n    {{b}}", "if {{c}}:\n    {{b}}"]),
+    ("x = 1", ["x = 2\ny = 3", "if d:\n    x = 2", "x = 2  # c", "x = \'\'\'a\nb\'\'\'", "x = 2"]),
+    ("f()", ["g()  # c", "g()"]),
+    ("\'\'\'a\nb\'\'\'", ["\'\'\'a\n\nb\'\'\'"]),
+    ("\'\'\'a \nb\'\'\'", ["\'\'\'a\nb\'\'\'"]),
+    ("x = 1\ny = 2", ["z = 3"]),
+    ("{{t}} = {{v}}", ["{{t}} = (\n    {{v}}\n)", "{{t}} = h(\'\'\'k\n  l\'\'\', {{v}})"]),
+]
+
+
+def hunt_family():
+    srcs = STRING_SOURCES + GENEXP_SOURCES + BLOCK_SOURCES + LAYOUT_SOURCES
+    for (pat, repls) in HUNT_RULES:
+        for repl in repls:
+            for src in srcs:
+                yield (pat, repl, src, 0)
+
+
 def fixed_family(with_comments=False):
     """Seed-independent small-scope family: every pattern x every replacement of its kind x the fixed
     sources x count in {0, 1, 2}."""
@@ -760,19 +1002,68 @@ def g_binds(d):
     return glist([f"({gtext(k)}, {gtext(v)})" for k, v in d.items()])
 
 
+def string_literal_lines(text):
+    """0-based numbers of the lines of the text that begin inside a string literal (our own tokenizer
+    pass, independent of processing._lines_inside_string_literals)."""
+    out = set()
+    try:
+        for tok in tokenize.generate_tokens(io.StringIO(text).readline):
+            if tok.type == tokenize.STRING or tokenize.tok_name[tok.type] in ("FSTRING_MIDDLE", "FSTRING_END"):
+                out.update(range(tok.start[0], tok.end[0]))
+    except (tokenize.TokenError, SyntaxError, IndentationError):
+        pass
+    return sorted(out)
+
+
+def generator_shares_call_parens(source, rng):
+    """Is the node at rng a generator expression that is the only argument of a call and written
+    with that call's parentheses (structural criterion on our own parse)?"""
+    try:
+        tree = ast.parse(source)
+    except SyntaxError:
+        return False
+    for node in ast.walk(tree):
+        if isinstance(node, ast.Call) and len(node.args) == 1 and not node.keywords \
+                and isinstance(node.args[0], ast.GeneratorExp) and node_span([node.args[0]], source) == tuple(rng):
+            f_end = node_span([node.func], source)[1]
+            return source[f_end:rng[0]].strip() == ""
+    return False
+
+
+def wrap_ranges(source, rec):
+    """Scheduled ranges whose replacement must get the call's parentheses back: shared parentheses,
+    and the replacement is not a generator expression itself."""
+    out = []
+    for (_, _, a, b, new) in rec["sched"]:
+        if new.strip() and generator_shares_call_parens(source, (a, b)):
+            try:
+                again = isinstance(ast.parse(new.strip(), mode="eval").body, ast.GeneratorExp)
+            except SyntaxError:
+                again = False
+            if not again:
+                out.append((a, b))
+    return out
+
+
 def g_subn_case(case, ms, rec) -> str:
     pat, repl, source, count = case
-    matches = glist([f"({g_range(rng)}, {g_binds(b)})" for (rng, b, _) in ms])
+    yielded = dict(rec["items"]) if not rec["error"] else {}
+    matches = glist([f"({g_range(rng)}, {g_binds(b)}, "
+                     f"{glist([f'{i}%nat' for i in string_literal_lines(yielded.get(rng, '')) if i > 0])})"
+                     for (rng, b, _) in ms])
     valid = glist([f"({gtext(t)}, {gbool(v)})" for t, v in rec["valid"].items()])
     if rec["error"]:
         items = "None"
     else:
         items = "(Some " + glist([f"({g_range(r)}, {gtext(t)})" for (r, t) in rec["items"]]) + ")"
     sched = glist([f"({gz(g)}, {gz(t)}, {gz(s)}, {gz(e)}, {gtext(n)})" for (g, t, s, e, n) in rec["sched"]])
-    il = glist([g_range(r) for r in ignore_line_ranges(source)])
+    il = glist([g_range(r) for r in regex_ignore_line_ranges(source)])
     n = rec["n"] if rec["n"] is not None else -1
-    return (f"(mkSubn {gtext(source)} {gtext(repl)} {gz(count)} {matches} {valid} {il} {items} {sched} "
-            f"{gtext(rec['cand'])} {gz(n)})")
+    wraps = glist([g_range(r) for r in wrap_ranges(source, rec)])
+    texts = {t for (_, _, a, b, t) in rec["sched"]} | {source[a:b] for (_, _, a, b, _) in rec["sched"]}
+    mlstr = glist([gtext(t) for t in sorted(texts) if string_literal_lines(t)])
+    return (f"(mkSubn {gtext(source)} {gtext(repl)} {gz(count)} {matches} {valid} {wraps} {mlstr} {il} {items} "
+            f"{sched} {gtext(rec['cand'])} {gz(n)})")
 
 
 HEADER = ("From Coq Require Import String List ZArith Uint63.\nImport ListNotations.\nOpen Scope Z_scope.\n"
@@ -1037,6 +1328,14 @@ WITNESSES = {
     "F14-1": [("f({{x}})", "{{x}} * 2", "y = f(1 + 2)", 0),
               ("{{a}} * {{b}}", "{{a}} * {{b}}", "y = (1 + 2) * 3", 0)],
     "F14-2": [("f({{x}})", "{{x}} - {{x}}", "y = f(u) * 2\n", 0)],
+    "F14-6": [("x = 1", "x = 2\ny = 3", "if c: x = 1\n", 0)],
+    "F14-7": [("f()", "g()  # c", "y = f() + 1\n", 0)],
+    "F14-8": [("x", "y", "f'{x=}'\n", 0)],
+    "F14-9": [("if {{c}}:\n    {{b}}", "if not {{c}}:\n    {{b}}", "if a:\n    p()\nelif b:\n    q()\n", 0)],
+    "F14-17": [("x = 1", "x = 2", "x = 1 \x0c # pyrefact: ignore\n", 0),
+               ("x = 1", "x = 2\ny = 3", "if c:\r    x = 1\r", 0)],
+    "F14-18": [("f()", "g()", "s = \'\'\'\n# pyrefact: ignore\'\'\'; f()\n", 0)],
+    "F14-19": [("x = {{a}}", "y = {{a}}", "x = \'\'\'a \nb\'\'\'\n", 0)],
 }
 
 
@@ -1297,6 +1596,7 @@ def check(run: common.Run):
                 seen_nomatch.add(key)
             yield c
     cases += list(prune(fixed_family(with_comments=True)))
+    cases += list(prune(dict.fromkeys(hunt_family())))
     n_fixed = len(cases) - n_corpus
     gen = Gen(rnd)
     n_rand = 1500 if quick else 40000
@@ -1388,7 +1688,8 @@ def check(run: common.Run):
         edis += [k + i for i in idx]
 
     # ---------------- deterministic sweep: the property oracle on the fixed family + corpus ---------
-    sweep = [c for (_, c) in corpus] + list(prune(fixed_family())) + minws_cases
+    sweep = [c for (_, c) in corpus] + list(prune(fixed_family())) + list(prune(dict.fromkeys(hunt_family()))) \
+        + minws_cases
     sweep = list(dict.fromkeys(sweep))
     sweep_fail, by_finding = [], {}
     for c in sweep:
